@@ -280,7 +280,7 @@ def run(ctx, rep):
     c08.run(ctx, sub)
     n6 = 0
     for o in sub.obs:
-        take = o.rule == "R08.5" or (o.rule == "R08.3" and "_seq_request_callback" in o.key) or \
+        take = o.rule == "R08.5" or (o.rule == "R08.3" and ("_seq_request_callback" in o.key or "package:" in o.key)) or \
             (o.rule == "R08.4" and "registered" in o.key)
         if take:
             n6 += 1
@@ -316,6 +316,8 @@ def run(ctx, rep):
                  "a waiter that saw 'not ready' calls self._conn.serve() next; if another thread publishes the reply in between and "
                  "drops the connection the waiter fails with AttributeError instead of getting its reply")
     _close_only_on_eof(ctx, rep)
+    rep.rule("R13.12", "completion callbacks: each runs exactly once even when its registration races with the delivery (= R15.3)")
+    K.share(ctx, rep, "c15", lambda o: o.rule == "R15.3" and "callbacks run exactly once" in o.key, "R13.12", floor=1)
 
 
 def _close_only_on_eof(ctx, rep):
